@@ -258,6 +258,10 @@ func (p *VP9Packet) Unmarshal(packet []byte) ([]byte, error) { // nolint:cyclop
 		return nil, errShortPacket
 	}
 
+	// Start from a clean packet: the optional fields and the slices of a previous
+	// Unmarshal into the same VP9Packet must not leak into this one.
+	*p = VP9Packet{videoDepacketizer: p.videoDepacketizer}
+
 	p.I = packet[0]&0x80 != 0
 	p.P = packet[0]&0x40 != 0
 	p.L = packet[0]&0x20 != 0
